@@ -124,7 +124,7 @@ def random_behaviours(c, rng, count, depth, max_loggers):
         nh = 0
         # (the two long-running-process actions are slow to execute: one batch of children in every second
         # behaviour at most, 70 000 loggers derived elsewhere in every sixth)
-        nbulk, burnt = (0 if rng.random() < 0.5 else 9), rng.random() > 0.17
+        nbulk, burnt = (0 if rng.random() < (0.5 if count <= 60 else 0.15) else 9), rng.random() > (0.17 if count <= 60 else 0.08)
         beh = []
         for _ in range(depth):
             acts = [a for a in c["acts"]]
